@@ -35,7 +35,14 @@ def _outcome(fn, a, kw):
         r = fn(*a, **kw)
     except BaseException as e:           # noqa: the kind of failure is the observation
         return ('raises', type(e).__name__, None)
-    return ('returns', type(r).__name__, _freeze(r))
+    return ('returns', type(r).__name__, _freeze(r), _repr(r))
+
+
+def _repr(r):
+    try:
+        return repr(r)[:2000]
+    except Exception:
+        return None
 
 
 def _same(x, y):
@@ -46,6 +53,10 @@ def _same(x, y):
             return True
     except Exception:
         pass
+    # what the answers looked like when they were given (the harness may have edited a mutable answer since: the
+    # "caller owns what it gets" steps do exactly that)
+    if len(x) > 3 and len(y) > 3 and x[3] is not None:
+        return x[3] == y[3]
     return repr(x[2]) == repr(y[2])
 
 
@@ -85,7 +96,7 @@ class Recorder:
                             self.calls.append((name, orig, a0, kw0, ('raises', type(e).__name__, None)))
                         raise
                     if keep:
-                        first = ('returns', type(r).__name__, _freeze(r))
+                        first = ('returns', type(r).__name__, _freeze(r), _repr(r))
                         self.calls.append((name, orig, a0, kw0, first))
                         if self.again_every and len(self.calls) % self.again_every == 0:
                             # the very same question once more, immediately (a "last call" memo would answer it)
@@ -111,8 +122,8 @@ class Recorder:
             bad += 1
             ctx.violation({'kind': 'answer-changes-when-asked-twice-in-a-row', 'fn': name, 'first': first[:2], 'second': second[:2]},
                           {'function': name, 'args': repr(a)[:600], 'kwargs': repr(kw)[:300],
-                           'first_answer': repr(first)[:600], 'second_answer': repr(second)[:600]},
-                          '%s%s answered %s and, asked again at once, %s' % (name, repr(a)[:200], repr(first)[:160], repr(second)[:160]))
+                           'first_answer': repr(first[:3])[:600], 'second_answer': repr(second[:3])[:600]},
+                          '%s%s answered %s and, asked again at once, %s' % (name, repr(a)[:200], repr(first[:3])[:160], repr(second[:3])[:160]))
         for name, fn, a, kw, first in reversed(self.calls):
             try:
                 a1, kw1 = _snap(a), {k: _snap(v) for k, v in kw.items()}
@@ -124,39 +135,59 @@ class Recorder:
                 bad += 1
                 ctx.violation({'kind': 'answer-depends-on-earlier-calls', 'fn': name, 'first': first[:2], 'second': second[:2]},
                               {'function': name, 'args': repr(a)[:600], 'kwargs': repr(kw)[:300],
-                               'first_answer': repr(first)[:600], 'answer_when_asked_again_in_reverse_order': repr(second)[:600]},
+                               'first_answer': repr(first[:3])[:600], 'answer_when_asked_again_in_reverse_order': repr(second[:3])[:600]},
                               '%s%s answered %s the first time and %s when the same questions were asked again in reverse order' % (
-                                  name, repr(a)[:200], repr(first)[:160], repr(second)[:160]))
-        # ... and once more from four threads at once (a sample): an answer does not depend on who else is asking
+                                  name, repr(a)[:200], repr(first[:3])[:160], repr(second[:3])[:160]))
+        # ... and once more from four threads at once, one helper at a time (all four inside the SAME helper with
+        # different arguments): an answer does not depend on who else is asking
         import sys
         import threading
-        sample = self.calls[::max(1, len(self.calls) // 3000)][:3000]
+        byname = {}
+        for c in self.calls:
+            byname.setdefault(c[0], []).append(c)
         conc = []
-        if sample:
-            old_si = sys.getswitchinterval()
-            sys.setswitchinterval(1e-5)
-            lock = threading.Lock()
+        asked = 0
+        old_si = sys.getswitchinterval()
+        lock = threading.Lock()
+        try:
+            sys.setswitchinterval(1e-6)
+            for name in sorted(byname):
+                allc = byname[name]
+                sample = allc[::max(1, len(allc) // 600)][:600]
+                if len(sample) < 2:
+                    continue
+                asked += 8 * len(sample)
+                for in_step in (False, True):
+                    barrier = threading.Barrier(4)
 
-            def worker(k):
-                seq = sample[k::2] if k < 2 else sample[::-1][k - 2::2]
-                for name, fn, a, kw, first in seq:
-                    second = _outcome(fn, _snap(a), {x: _snap(v) for x, v in kw.items()})
-                    if not _same(first, second):
-                        with lock:
-                            conc.append((name, a, kw, first, second))
-            try:
-                ths = [threading.Thread(target=worker, args=(k,)) for k in range(4)]
-                [t.start() for t in ths]
-                [t.join() for t in ths]
-            finally:
-                sys.setswitchinterval(old_si)
-            for name, a, kw, first, second in conc[:10]:
-                bad += 1
-                ctx.violation({'kind': 'answer-depends-on-concurrent-callers', 'fn': name, 'first': first[:2], 'second': second[:2]},
-                              {'function': name, 'args': repr(a)[:600], 'kwargs': repr(kw)[:300],
-                               'answer_alone': repr(first)[:600], 'answer_with_three_other_threads_calling': repr(second)[:600]},
-                              '%s%s answered %s alone and %s while three other threads were calling the same helpers' % (
-                                  name, repr(a)[:200], repr(first)[:160], repr(second)[:160]))
+                    def worker(k, sample=sample, in_step=in_step, barrier=barrier):
+                        # first four rotations of the same list (at any moment the threads ask different questions),
+                        # then all four in step (the same question from several threads at nearly the same moment)
+                        off = 0 if in_step else (k * len(sample)) // 4
+                        barrier.wait()
+                        for name_, fn, a, kw, first in sample[off:] + sample[:off]:
+                            second = _outcome(fn, _snap(a), {x: _snap(v) for x, v in kw.items()})
+                            if not _same(first, second):
+                                with lock:
+                                    conc.append((name_, a, kw, first, second))
+                    ths = [threading.Thread(target=worker, args=(k,)) for k in range(4)]
+                    [t.start() for t in ths]
+                    [t.join() for t in ths]
+        finally:
+            sys.setswitchinterval(old_si)
+        seen_fn = set()
+        for name, a, kw, first, second in conc:
+            if name in seen_fn:
+                continue
+            seen_fn.add(name)
+            bad += 1
+            ctx.violation({'kind': 'answer-depends-on-concurrent-callers', 'fn': name},
+                          {'function': name, 'args': repr(a)[:600], 'kwargs': repr(kw)[:300],
+                           'answer_alone': repr(first[:3])[:600], 'answer_with_three_other_threads_calling': repr(second[:3])[:600],
+                           'differing_answers': sum(1 for c in conc if c[0] == name)},
+                          '%s%s answered %s alone and %s while three other threads were calling the same helper' % (
+                              name, repr(a)[:200], repr(first[:3])[:160], repr(second[:3])[:160]))
+        sample = [None] * (asked // 2)
         ctx.cov['evaluations'] += n + 2 * len(sample)
         ctx.stage('order-independence-' + label, calls_recorded=len(self.calls), calls_seen=self.seen, replayed=n, asked_twice_in_a_row=self.asked_twice, asked_from_four_threads=2 * len(sample), differing=bad)
         self.calls = []
